@@ -19,7 +19,7 @@ INTERNAL_AUTH = {"internal", "iparam", "iroot"}
 INTERNAL_BOUND = INTERNAL_AUTH | {"status", "metrics", "health"}
 ACTIONS = ["Route", "Guard", "Extract", "Secure", "Verify", "Validate", "Best", "Issuer", "Dispatch"]
 DEFAULT_TOK = {"shape": "bearer", "ser": "compact", "alg": "ed25519/EdDSA", "signer": "authorised", "hdr": "none", "aud": "ok",
-               "iss": "ok", "sub": "ok", "jti": "uuid", "life": "ok", "time": "now", "len": "ok"}
+               "iss": "ok", "sub": "ok", "jti": "uuid", "nbf": "60s", "iat": "0", "life": "1h", "len": "ok"}
 WORKERS = 8
 
 
@@ -38,6 +38,14 @@ def tkey(c):
 
 def deviations(tok):
     return ",".join("%s=%s" % (k, tok[k]) for k in sorted(tok) if tok[k] != DEFAULT_TOK[k])
+
+
+def cause_of(c):
+    """The attribute values that make the credential invalid: those that do so alone, else the deviating time claims, else all."""
+    if c["why"]:
+        return ",".join("%s=%s" % (a, c["tok"][a]) for a in sorted(c["why"]))
+    t = ",".join("%s=%s" % (a, c["tok"][a]) for a in ("iat", "life", "nbf") if c["tok"][a] != DEFAULT_TOK[a])
+    return t or deviations(c["tok"])
 
 
 def classify(o):
@@ -101,12 +109,12 @@ def judge(cases, results, rep, prop):
                 if absent_reach.get(tkey(c), set()) & INTERNAL_AUTH:
                     sig = dict(kind="auth-bypass", target_form=c["form"].split("-")[0], path_variant=c["variant"], route=c["route"])
                 else:
-                    sig = dict(kind="invalid-token-accepted", token=",".join("%s=%s" % (a, c["tok"][a]) for a in sorted(c["why"])))
+                    sig = dict(kind="invalid-token-accepted", token=cause_of(c))
                 rep.violation(sig, dict(replay, violation=dict(sig, line=o["line"], auth=o.get("auth"), status=o["status"], reached=o["reached"])))
             # (2) every failure is answered 401 with no side effect
             elif c["validity"] == "no" and valid_reach.get(tkey(c), set()) & INTERNAL_AUTH:
                 if o["status"] != 401 or reached:
-                    sig = dict(kind="failure-not-401", status=o["status"], token=",".join("%s=%s" % (a, c["tok"][a]) for a in sorted(c["why"])))
+                    sig = dict(kind="failure-not-401", status=o["status"], token=cause_of(c))
                     rep.violation(sig, dict(replay, violation=dict(sig, line=o["line"], auth=o.get("auth"), reached=o["reached"])))
             elif c["validity"] == "no" and tkey(c) not in valid_reach:
                 st["unchecked401"] += 1
@@ -175,8 +183,8 @@ def run(prop, tier, seed, replay=None):
     states = transitions = 0
     cases = []
     predicted_bad = 0
-    for fam in ("targets", "tokens"):
-        base = "HttpGuard.%s.%s" % (fam, "quick" if quick else "thorough")
+    for fam in ("targets", "tokens", "claims"):
+        base = "HttpGuard.claims" if fam == "claims" else "HttpGuard.%s.%s" % (fam, "quick" if quick else "thorough")
         m = vlib.tlc("HttpGuard", base + ".cfg", workers=WORKERS, timeout=900, coverage=not quick)
         if m.error:
             raise Inconclusive("TLC %s: %s" % (base, m.error))
